@@ -25,7 +25,9 @@ EXPLANATION = (
     "interpreted VariablePayload methods. vp_compile is evaluated end to end (two definitions with an equal layout and different "
     "hooks share one world, constructor defaults come from positional and keyword-only parameters); convert_to_payload is evaluated "
     "for fresh, re-converted and derived dataclasses with ClassVar pseudo-fields; type_map is evaluated on every annotation kind and "
-    "only returns registered formats. Code outside the evaluated fragment is exit 2 (undecided), never a verdict. The family of "
+    "only returns registered formats (including an explicit [payload class] list object used as the annotation). Where the evaluated code "
+    "asks about the VALUE of a constructor default (truth value, None-ness) both answers are evaluated, because any object may be a default. "
+    "When a private builder no longer has its reviewed name / parameter list, its rule evaluates what vp_compile installs instead. Code outside the evaluated fragment is exit 2 (undecided), never a verdict. The family of "
     "definitions is finite (up to 5 formats / 19 names); equality of bytes for concrete instances is not decided."
 )
 
@@ -37,6 +39,16 @@ SER = "ipv8/messaging/serialization.py"
 # ===================================================================================================== symbolic values
 class Und(Exception):
     """The abstract interpreter cannot evaluate this construct: the rule is undecided (exit 2), never a verdict."""
+
+
+class NeedCase(Und):
+    """The evaluated code asks about a property of an opaque constructor default (its truth value / whether it is None) that
+    differs between definitions the property quantifies over: the driver (`forked`) evaluates both cases.  Outside that driver
+    it is an ordinary Und (undecided)."""
+
+    def __init__(self, key: tuple, what: str) -> None:
+        super().__init__(what)
+        self.key = key
 
 
 class PyExc(Exception):
@@ -233,6 +245,25 @@ class IterObj:
         return f"<iterator at {self.pos} of {self.seq!r}>"
 
 
+class CountIter:
+    """itertools.count(start, step): an unbounded iterator."""
+
+    def __init__(self, cur, step) -> None:
+        self.cur = cur
+        self.step = step
+
+
+@dataclass(frozen=True)
+class Partial:
+    """functools.partial(fn, *args, **kw)."""
+    fn: object
+    args: tuple
+    kw: tuple = ()
+
+    def __hash__(self) -> int:
+        return id(self)
+
+
 class _Return(Exception):
     def __init__(self, value) -> None:
         self.value = value
@@ -256,7 +287,9 @@ _EXC_PARENTS = {"KeyError": "LookupError", "IndexError": "LookupError", "NotImpl
 _TYPE_NAMES = {"str", "int", "float", "bool", "bytes", "list", "tuple", "set", "frozenset", "dict", "type", "object", "super"}
 _FUNC_NAMES = {"len", "range", "enumerate", "zip", "reversed", "sorted", "repr", "isinstance", "issubclass", "hasattr", "getattr", "setattr",
                "callable", "compile", "exec", "globals", "locals", "vars", "any", "all", "sum", "min", "max", "abs", "print", "staticmethod",
-               "classmethod", "map", "filter", "format", "id", "iter", "next", "dir", "delattr"}
+               "classmethod", "map", "filter", "format", "id", "iter", "next", "dir", "delattr", "divmod"}
+_EXT_CLASSES = {"typing.TypeVar": "typevar", "typing_extensions.TypeVar": "typevar", "inspect.Parameter": "parameter",
+                "inspect.Signature": "signature", "dataclasses.Field": "field", "types.CodeType": "code"}
 _OPAQUE_DATA = ("field", "wire", "default", "arg")      # symbols that stand for arbitrary run-time values
 _IDENT = ("name", "fmt", "hook", "clsname", "modname")  # symbols that stand for distinct identities
 
@@ -329,6 +362,9 @@ class World:
         self.conv_nodes: dict = {}
         self.parse_cache: dict[str, object] = {}
         self.touched: set[str] = set()
+        self.exec_texts: list = []     # every source text handed to exec(), in order
+        self.forking = False           # inside `forked`: questions about opaque default values are answered per case
+        self.assumed: dict = {}        # ("truth" | "none", default symbol) -> bool, the case under evaluation
 
     def place(self, part) -> str:
         try:
@@ -432,6 +468,8 @@ class Interp:
         if isinstance(v, Sym):
             if v.kind in ("name", "fmt", "hook", "clsname", "modname"):
                 return True          # identifiers / registered format names are not empty, hooks are functions
+            if v.kind == "default":
+                return self.default_case("truth", v)
             return None
         if isinstance(v, SStr):
             if any(isinstance(p, str) or (isinstance(p, Sym) and p.kind in _IDENT) or (isinstance(p, Conv) and p.how == "r") for p in v.parts):
@@ -441,10 +479,28 @@ class Interp:
             return None
         return True
 
+    def default_case(self, what: str, v: Sym):
+        """Truth value / None-ness of an opaque constructor default: any Python object may be a default, so both answers occur
+        among the definitions the property quantifies over.  Answered from the case under evaluation (`forked`), else unknown."""
+        w = self.w
+        if what == "truth":
+            if w.assumed.get(("none", v)) is True:
+                return False
+            t = w.assumed.get(("truth", v))
+        else:
+            if w.assumed.get(("truth", v)) is True:
+                return False
+            t = w.assumed.get(("none", v))
+        if t is None and w.forking:
+            raise NeedCase((what, v), f"the evaluated code depends on {'the truth value of' if what == 'truth' else 'whether None is'} the default value {v!r}")
+        return t
+
     def veq(self, a, b):
         """a == b : True / False / None (unknown)."""
         if a is b:
             return True
+        if (a is None or b is None) and isinstance(b if a is None else a, Sym) and (b if a is None else a).kind == "default":
+            return self.default_case("none", b if a is None else a)
         if is_concrete(a) and is_concrete(b):
             return a == b
         if isinstance(a, (list, tuple)) and isinstance(b, (list, tuple)):
@@ -499,6 +555,8 @@ class Interp:
             return True
         if a is None or b is None:
             o = b if a is None else a
+            if isinstance(o, Sym) and o.kind == "default":
+                return self.default_case("none", o)
             if isinstance(o, Sym) and o.kind in ("default", "arg", "field"):
                 return None
             if isinstance(o, App):
@@ -589,6 +647,12 @@ class Interp:
                 v.pos += 1
                 yield x
             return
+        if isinstance(v, CountIter):
+            for _ in range(20000):
+                x = v.cur
+                v.cur = x + v.step
+                yield x
+            raise Und("an unbounded iterator is consumed without a bound")
         if isinstance(v, (tuple, range)):
             yield from v
             return
@@ -679,9 +743,18 @@ class Interp:
                 return False
             return False
         if isinstance(t, Ext):
+            kind = _EXT_CLASSES.get(t.name)
+            if kind is not None:          # a library class whose instances this interpreter models as records of exactly that kind
+                return tn == "rec:" + kind
             if isinstance(tn, str) and tn.startswith("rec:"):
                 return t.name.rsplit(".", 1)[-1].lower() == tn[4:]
-            return False
+            if t.name in ("collections.abc.Hashable", "typing.Hashable"):
+                try:
+                    hash(v)
+                except TypeError:
+                    return False
+                return True
+            raise Und(f"isinstance against the library class {t.name} (not modelled)")
         if isinstance(t, (ClsObj, RepoCls)):
             return not isinstance(tn, str) and self.is_subclass(tn, t)
         raise Und(f"isinstance against {t!r}")
@@ -898,6 +971,8 @@ class Interp:
             return self.call_ext(f.name, list(args), kw)
         if isinstance(f, PyMethod):
             return self.call_pymethod(f.obj, f.name, list(args), kw)
+        if isinstance(f, Partial):
+            return self.call(f.fn, [*f.args, *args], {**dict(f.kw), **kw})
         if isinstance(f, ClsObj):
             return Constructed(f, tuple(_freeze(a) for a in args), tuple(sorted(((k, _freeze(v)) for k, v in kw.items()), key=repr)))
         if isinstance(f, ObjInit):
@@ -1016,9 +1091,9 @@ class Interp:
         if name == "iter":
             if len(a) != 1:
                 raise Und("iter() with a sentinel")
-            return a[0] if isinstance(a[0], IterObj) else IterObj(a[0] if isinstance(a[0], list) else list(self.iterate(a[0])))
+            return a[0] if isinstance(a[0], (IterObj, CountIter)) else IterObj(a[0] if isinstance(a[0], list) else list(self.iterate(a[0])))
         if name == "next":
-            if not isinstance(a[0], IterObj):
+            if not isinstance(a[0], (IterObj, CountIter)):
                 raise PyExc("TypeError", f"{a[0]!r} is not an iterator")
             for x in self.iterate(a[0]):
                 return x
@@ -1068,6 +1143,12 @@ class Interp:
                 except (TypeError, ValueError) as e:
                     raise PyExc(type(e).__name__, str(e)) from e
             raise Und(f"{name}() of a symbolic value")
+        if name == "divmod":
+            if len(a) == 2 and all(isinstance(x, int) and not isinstance(x, bool) for x in a):
+                if a[1] == 0:
+                    raise PyExc("ZeroDivisionError", "integer division or modulo by zero")
+                return divmod(a[0], a[1])
+            raise Und("divmod() of symbolic values")
         if name in ("min", "max", "sum"):
             vals = list(self.iterate(a[0])) if len(a) == 1 else a
             if all(is_concrete(x) for x in vals) and not kw:
@@ -1128,6 +1209,10 @@ class Interp:
                     raise Und(f"type() of a {tn}")
                 return tn
             raise Und("type() with three arguments")
+        if name == "object":
+            if a or kw:
+                raise PyExc("TypeError", "object() takes no arguments")
+            return Obj(None, {}, "object()")      # a fresh sentinel: identical only to itself
         if name == "vars":
             return self.getattr_(a[0], "__dict__")
         if name == "dir":
@@ -1195,6 +1280,7 @@ class Interp:
             raise Und("exec() into module globals")
         if not isinstance(loc, dict):
             raise Und("exec() with an opaque locals mapping")
+        self.w.exec_texts.append(text)
         tree = self.parse_generated(text)
         fr = Frame(Func(tree, g.module, generated=True), ChainMap(loc))
         self.block(tree.body, fr)
@@ -1274,6 +1360,30 @@ class Interp:
             return IterObj([x for it in self.iterate(a[0]) for x in self.iterate(it)])
         if name == "types.MethodType":
             return Bound(a[0], a[1])
+        if name == "itertools.count":
+            start, step = (a + [0, 1][len(a):])[:2] if not kw else (kw.get("start", a[0] if a else 0), kw.get("step", 1))
+            if not all(isinstance(x, int) and not isinstance(x, bool) for x in (start, step)):
+                raise Und("itertools.count over symbolic values")
+            return CountIter(start, step)
+        if name == "itertools.repeat":
+            times = a[1] if len(a) > 1 else kw.get("times")
+            if not (isinstance(times, int) and not isinstance(times, bool)):
+                raise Und("itertools.repeat without a concrete bound")
+            return IterObj([a[0]] * max(times, 0))
+        if name == "itertools.starmap":
+            return IterObj([self.call(a[0], list(self.iterate(x))) for x in self.iterate(a[1])])
+        if name == "itertools.zip_longest":
+            cols = [list(self.iterate(x)) for x in a]
+            n = max((len(c) for c in cols), default=0)
+            return IterObj([tuple(c[i] if i < len(c) else kw.get("fillvalue") for c in cols) for i in range(n)])
+        if name == "functools.partial":
+            if not a:
+                raise PyExc("TypeError", "partial() needs a callable")
+            return Partial(a[0], tuple(a[1:]), tuple(kw.items()))
+        if name == "operator.itemgetter" and len(a) == 1:
+            return Partial(PyMethod(self, "getitem_swapped"), (a[0],))
+        if name == "operator.attrgetter" and len(a) == 1 and isinstance(a[0], str) and "." not in a[0]:
+            return Partial(PyMethod(self, "getattr_swapped"), (a[0],))
         if name in ("typing.TypeVar", "typing_extensions.TypeVar"):
             return Rec("typevar", __name__=a[0])
         if short in ("getLogger",) or name.startswith("logging."):
@@ -1297,6 +1407,10 @@ class Interp:
 
     # ------------------------------------------------------------------------------------------ methods of builtin values
     def call_pymethod(self, o, name: str, a: list, kw: dict):  # noqa: C901, PLR0911, PLR0912, PLR0915
+        if o is self:
+            if name == "getitem_swapped":
+                return self.getitem(a[1], a[0])
+            return self.getattr_(a[1], a[0])
         if isinstance(o, (ClsObj, RepoCls, Builtin)):
             if name == "mro":
                 return [o, Builtin("object")] if isinstance(o, Builtin) else [*self.linearize(o), Builtin("object")]
@@ -1573,7 +1687,87 @@ class Interp:
             return
         if isinstance(s, (ast.Global, ast.Nonlocal)):
             raise Und("global / nonlocal rebinding")
+        if isinstance(s, ast.Match):
+            subj = self.ev(s.subject, fr)
+            for case in s.cases:
+                t = self.match_pattern(case.pattern, subj, fr)
+                if t is None:
+                    raise Und(f"the pattern `{norm(case.pattern)[:60]}` depends on a run-time value")
+                if t and (case.guard is None or self.cond(case.guard, fr)):
+                    self.block(case.body, fr)
+                    return
+            return
         raise Und(f"statement `{norm(s)[:60]}`")
+
+    def match_pattern(self, p, subj, fr: Frame):  # noqa: C901, PLR0911, PLR0912
+        """True / False / None (unknown); captures are bound as CPython binds them (also on a later failure of the same case)."""
+        if isinstance(p, ast.MatchValue):
+            return self.veq(subj, self.ev(p.value, fr))
+        if isinstance(p, ast.MatchSingleton):
+            return self.same(subj, p.value)
+        if isinstance(p, ast.MatchAs):
+            t = True if p.pattern is None else self.match_pattern(p.pattern, subj, fr)
+            if t and p.name is not None:
+                fr.locals[self.ident(p.name)] = subj
+            return t
+        if isinstance(p, ast.MatchOr):
+            res = False
+            for q in p.patterns:
+                t = self.match_pattern(q, subj, fr)
+                if t:
+                    return True
+                if t is None:
+                    res = None
+            return res
+        if isinstance(p, ast.MatchClass):
+            cls = self.ev(p.cls, fr)
+            if not self.is_instance(subj, cls):
+                return False
+            if p.patterns:
+                if len(p.patterns) == 1 and isinstance(cls, Builtin) and cls.name in ("str", "int", "float", "bool", "bytes", "list", "tuple", "dict", "set", "frozenset"):
+                    return self.match_pattern(p.patterns[0], subj, fr)
+                raise Und("class pattern with positional sub-patterns")
+            res = True
+            for k, q in zip(p.kwd_attrs, p.kwd_patterns):
+                try:
+                    v = self.getattr_(subj, k)
+                except PyExc as e:
+                    if e.kind == "AttributeError":
+                        return False
+                    raise
+                t = self.match_pattern(q, v, fr)
+                if t is False:
+                    return False
+                if t is None:
+                    res = None
+            return res
+        if isinstance(p, ast.MatchSequence):
+            if not isinstance(subj, (list, tuple)):
+                if self.type_name(subj) is None:
+                    raise Und(f"sequence pattern against the opaque value {subj!r}")
+                return False
+            star = [i for i, q in enumerate(p.patterns) if isinstance(q, ast.MatchStar)]
+            if not star:
+                if len(subj) != len(p.patterns):
+                    return False
+                pairs = list(zip(p.patterns, subj))
+            else:
+                i = star[0]
+                after = len(p.patterns) - i - 1
+                if len(subj) < len(p.patterns) - 1:
+                    return False
+                pairs = list(zip(p.patterns[:i], subj[:i])) + list(zip(p.patterns[i + 1:], subj[len(subj) - after:]))
+                if p.patterns[i].name is not None:
+                    fr.locals[self.ident(p.patterns[i].name)] = list(subj[i:len(subj) - after])
+            res = True
+            for q, v in pairs:
+                t = self.match_pattern(q, v, fr)
+                if t is False:
+                    return False
+                if t is None:
+                    res = None
+            return res
+        raise Und(f"pattern `{norm(p)[:60]}`")
 
     def try_(self, s: ast.Try, fr: Frame) -> None:
         try:
@@ -2181,12 +2375,26 @@ def run_init(sc: Scenario, cls: ClsObj, d: Defn, fn_of, with_defaults: bool):
             continue
         if err is not None:
             return f"constructor call with {label} raises {err}"
-        if got != exp:
+        if got != exp and not _equal_in_case(sc.w, got, exp):
             return f"constructor call with {label} leaves the fields {got}, expected {exp}"
         ev = [x for x in sc.w.events[mark:] if (x[0] == "base-init" and x[2] is obj) or (x[0] == "set" and x[1] is obj)]
         if not ev or ev[0][0] != "base-init":
             return f"constructor call with {label} does not run Payload.__init__(self) before the fields are set"
     return None
+
+
+def _equal_in_case(w: World, got: dict, exp: dict) -> bool:
+    """Field maps are equal given the case under evaluation: a default that is None in this case IS the value None."""
+    if set(got) != set(exp):
+        return False
+    for k, e in exp.items():
+        g = got[k]
+        if g == e:
+            continue
+        if g is None and isinstance(e, Sym) and e.kind == "default" and w.assumed.get(("none", e)) is True:
+            continue
+        return False
+    return True
 
 
 def decided(fi_where: str, thunk):
@@ -2196,6 +2404,64 @@ def decided(fi_where: str, thunk):
         raise AnalysisError(f"undecided: {fi_where}: {e}") from e
     except RecursionError as e:
         raise AnalysisError(f"undecided: {fi_where}: recursion") from e
+
+
+_MAX_CASES = 64
+
+
+def forked(sc: Scenario, thunk):
+    """thunk() -> disagreement text | None, evaluated once per CASE of the questions the evaluated code asks about opaque
+    constructor defaults (truth value, None-ness).  A default may be any Python object, so every consistent case is a definition
+    the property quantifies over: a disagreement in one case is a disagreement.  Cases are discovered lazily (depth first, 'truthy /
+    not None' first), so code that never asks is evaluated exactly once.  All cases are evaluated while they fit in _MAX_CASES
+    evaluations; beyond that (many defaults, each asked about) the cases are sampled like the definitions themselves: every answer
+    'no', and each single question answered against all the others."""
+    w = sc.w
+
+    def described(msg, case):
+        if msg and case:
+            what = {("truth", True): "is truthy", ("truth", False): "is falsy (0, False, b'', '', None ...)",
+                    ("none", True): "is None", ("none", False): "is not None"}
+            msg += " [case: " + ", ".join(f"the default of n{k[1].key} {what[(k[0], v)]}" for k, v in case.items()) + "]"
+        return msg
+
+    def run(policy):
+        case: dict = {}
+        for _ in range(400):
+            w.assumed = case
+            try:
+                return thunk(), case
+            except NeedCase as e:
+                case = {**case, e.key: policy(len(case))}
+        raise Und("the questions the code asks about default values do not settle")
+
+    w.forking = True
+    try:
+        stack: list[dict] = [{}]
+        runs = 0
+        longest = 0
+        while stack and runs < _MAX_CASES:
+            case = stack.pop()
+            runs += 1
+            w.assumed = case
+            try:
+                msg = thunk()
+            except NeedCase as e:
+                stack.append({**case, e.key: False})
+                stack.append({**case, e.key: True})
+                continue
+            longest = max(longest, len(case))
+            if msg:
+                return described(msg, case)
+        if not stack:
+            return None
+        for policy in [lambda i: False] + [lambda i, j=j, v=v: (i == j) == v for j in range(longest + 1) for v in (True, False)]:
+            msg, case = run(policy)
+            if msg:
+                return described(msg, case)
+        return None
+    finally:
+        w.assumed, w.forking = {}, False
 
 
 def scope_guard(sc: Scenario, where: str) -> None:
@@ -2216,12 +2482,24 @@ def gen_function(sc: Scenario, code, name: str, module: Module) -> Func:
     return scope[name]
 
 
+def _builder(repo, name: str, params: tuple):
+    """(function to report at, builder FuncInfo | None).  The builders are private: when one no longer exists under its reviewed name
+    and parameter list (renamed, merged, other signature), its rule evaluates what vp_compile - the only public way to reach it -
+    installs on the class instead (same abstract definitions, same expectations), so the rule does not depend on a private signature."""
+    try:
+        fi = repo.func(LP, name)
+    except AnalysisError:
+        return repo.func(LP, "vp_compile"), None
+    if tuple(fi.params()) != params or fi.decorators or fi.is_async:
+        return fi, None
+    return fi, fi
+
+
 # ===================================================================================================== rules
 def rule_init_template(ctx: Ctx) -> None:
     repo = ctx.repo
-    fi = repo.func(LP, "_compile_init")
-    if len(fi.params()) != 2:
-        raise AnalysisError("anchor-lost: _compile_init(names, defaults)")
+    fi, direct = _builder(repo, "_compile_init", ("names", "defaults"))
+    vpc = repo.func(LP, "vp_compile")
     defs = definitions(_SHAPES_A)
     bad = None
     conv_ok = conv_bad = 0
@@ -2232,9 +2510,9 @@ def rule_init_template(ctx: Ctx) -> None:
         nonlocal conv_ok, conv_bad, bad_conv
         cls = sc.make_class(d)
         defaults = {N(i): Sym("default", i) for i in d.defaults}
-        try:
-            code = sc.it.call(sc.it.func_of(fi), [d.names, defaults])
-            text = code.fields["text"] if isinstance(code, Rec) and code.kind == "code" else None
+
+        def scan(text) -> None:
+            nonlocal conv_ok, conv_bad, bad_conv
             for p in (text.parts if isinstance(text, SStr) else ()):
                 if isinstance(p, Conv) and isinstance(p.value, Sym) and p.value.kind == "default":
                     if p.how == "r":
@@ -2242,13 +2520,26 @@ def rule_init_template(ctx: Ctx) -> None:
                     else:
                         conv_bad += 1
                         bad_conv = bad_conv or p
-            fn = gen_function(sc, code, "__init__", fi.module)
+        try:
+            if direct is not None:
+                code = sc.it.call(sc.it.func_of(direct), [d.names, defaults])
+                scan(code.fields["text"] if isinstance(code, Rec) and code.kind == "code" else None)
+                fn = gen_function(sc, code, "__init__", fi.module)
+                get = lambda obj: Bound(fn, obj)  # noqa: E731
+            else:
+                mark = len(sc.w.exec_texts)
+                try:
+                    sc.it.call(sc.it.func_of(vpc), [cls])
+                finally:
+                    for text in sc.w.exec_texts[mark:]:
+                        scan(text)
+                get = lambda obj: sc.it.getattr_(obj, "__init__")  # noqa: E731
         except PyExc as e:
             return f"{e}"
-        return run_init(sc, cls, d, lambda obj: Bound(fn, obj), with_defaults=True)
+        return run_init(sc, cls, d, get, with_defaults=True)
 
     for d in defs:
-        msg = decided(fi.where, lambda d=d: one(d))
+        msg = decided(fi.where, lambda d=d: forked(sc, lambda: one(d)))
         if msg and bad is None:
             bad = (d, msg)
     scope_guard(sc, fi.where)
@@ -2284,18 +2575,20 @@ def _pack_disagreement(sc: Scenario, d: Defn, fn_of):
 
 def rule_to_pack_template(ctx: Ctx) -> None:
     repo = ctx.repo
-    fi = repo.func(LP, "_compile_to_pack_list")
-    if len(fi.params()) != 3:
-        raise AnalysisError("anchor-lost: _compile_to_pack_list(src_cls, format_list, names)")
+    fi, direct = _builder(repo, "_compile_to_pack_list", ("src_cls", "format_list", "names"))
+    vpc = repo.func(LP, "vp_compile")
     sc = Scenario(repo)
 
     def compiled(cls, obj):
-        code = sc.it.call(sc.it.func_of(fi), [cls, cls.attrs["format_list"], cls.attrs["names"]])
+        if direct is None:
+            sc.it.call(sc.it.func_of(vpc), [cls])
+            return sc.it.getattr_(obj, "to_pack_list")
+        code = sc.it.call(sc.it.func_of(direct), [cls, cls.attrs["format_list"], cls.attrs["names"]])
         return Bound(gen_function(sc, code, "to_pack_list", fi.module), obj)
 
     def first_bad(defs):
         for d in defs:
-            msg = decided(fi.where, lambda d=d: _pack_disagreement(sc, d, compiled))
+            msg = decided(fi.where, lambda d=d: forked(sc, lambda: _pack_disagreement(sc, d, compiled)))
             if msg:
                 return d, msg
         return None
@@ -2327,19 +2620,21 @@ def _unpack_disagreement(sc: Scenario, d: Defn, fn_of):
 
 def rule_from_unpack_template(ctx: Ctx) -> None:
     repo = ctx.repo
-    fi = repo.func(LP, "_compile_from_unpack_list")
-    if len(fi.params()) != 2:
-        raise AnalysisError("anchor-lost: _compile_from_unpack_list(src_cls, names)")
+    fi, direct = _builder(repo, "_compile_from_unpack_list", ("src_cls", "names"))
+    vpc = repo.func(LP, "vp_compile")
     sc = Scenario(repo)
 
     def compiled(cls):
-        code = sc.it.call(sc.it.func_of(fi), [cls, cls.attrs["names"]])
+        if direct is None:
+            sc.it.call(sc.it.func_of(vpc), [cls])
+            return sc.it.getattr_(cls, "from_unpack_list")
+        code = sc.it.call(sc.it.func_of(direct), [cls, cls.attrs["names"]])
         return Bound(gen_function(sc, code, "from_unpack_list", fi.module), cls)
 
     defs = definitions(_SHAPES_A)
     bad = None
     for d in defs:
-        msg = decided(fi.where, lambda d=d: _unpack_disagreement(sc, d, compiled))
+        msg = decided(fi.where, lambda d=d: forked(sc, lambda: _unpack_disagreement(sc, d, compiled)))
         if msg:
             bad = (d, msg)
             break
@@ -2357,15 +2652,15 @@ def rule_interpreter(ctx: Ctx) -> None:
     sc = Scenario(repo)
     da, db = definitions(_SHAPES_A), definitions(_SHAPES_B)
 
-    def method(name: str) -> FuncInfo:
-        f = vp.methods.get(name)
+    def method(name: str, fallback: FuncInfo | None = None) -> FuncInfo:
+        f = vp.methods.get(name) or vp.lookup(name) or fallback       # public API: found through the MRO if it moved to a base
         if f is None:
             raise AnalysisError(f"anchor-lost: VariablePayload.{name}")
         return f
 
     def first_bad(where, defs, probe):
         for d in defs:
-            msg = decided(where, lambda d=d: probe(d))
+            msg = decided(where, lambda d=d: forked(sc, lambda: probe(d)))
             if msg:
                 return d, msg
         return None
@@ -2377,7 +2672,7 @@ def rule_interpreter(ctx: Ctx) -> None:
               "interpreter emits (format, *fields) per format, 8 names per 'bits' and 1 otherwise with a running name index, fix_pack_<name> applied to "
               f"the field's raw value when defined ({len(da)} abstract definitions)",
               f"the interpreter's to_pack_list / _fix_pack differs from the definition: for {bad[0].describe()}: {bad[1]}" if bad else "")
-    tf = method("_to_packlist_fmt")
+    tf = method("_to_packlist_fmt", tp)      # private: when it is gone (inlined / renamed) the same evaluation is reported at to_pack_list
     badb = first_bad(tf.where, db, lambda d: _pack_disagreement(sc, d, interp_pack)) if bad is None else None
     ctx.check(badb is None, "interpreter-agrees", tf, tf.node, "_to_packlist_fmt: str -> itself, list -> payload-list, else payload",
               f"_to_packlist_fmt changed: for {badb[0].describe()}: {badb[1]}" if badb else "")
@@ -2474,7 +2769,7 @@ def rule_vp_compile(ctx: Ctx) -> None:
 
     bad = None
     for i, d in enumerate(defs):
-        msg = decided(fi.where, lambda d=d, i=i: one(d, f"D{i}"))
+        msg = decided(fi.where, lambda d=d, i=i: forked(sc, lambda: one(d, f"D{i}")))
         if msg:
             bad = (d, msg)
             break
@@ -2488,12 +2783,48 @@ def rule_vp_compile(ctx: Ctx) -> None:
 
 
 def registered_formats(ctx: Ctx) -> set[str]:
+    """Format names the Serializer registers.  Precise when the table is one dict display stored in *_packers; otherwise an OVER-
+    approximation (every string key of a dict display / dict(...) keyword / `_packers[<const>] =` store / add_packer(<const>, ..) in
+    Serializer.__init__ and the functions it calls): the rule that uses it only asks 'is this name registered', and what type_map
+    must return for each annotation is fixed independently by the expected table, so a larger set never hides a wrong format."""
     init = ctx.repo.method("Serializer", "__init__", SER)
     for s in walk_no_nested(init.node):
         v = getattr(s, "value", None)
         if isinstance(s, (ast.Assign, ast.AnnAssign)) and isinstance(v, ast.Dict) and "_packers" in norm(s.targets[0] if isinstance(s, ast.Assign) else s.target):
             return {const_value(k) for k in v.keys}
-    raise AnalysisError("anchor-lost: Serializer._packers table")
+    keys: set = set()
+    seen: set = set()
+
+    def harvest(fi: FuncInfo, depth: int) -> None:
+        if id(fi.node) in seen:
+            return
+        seen.add(id(fi.node))
+        for n in walk_no_nested(fi.node):
+            if isinstance(n, ast.Dict):
+                keys.update(const_value(k) for k in n.keys if k is not None)
+            elif isinstance(n, ast.Call):
+                c = chain(n.func) or ""
+                if c == "dict":
+                    keys.update(k.arg for k in n.keywords if k.arg)
+                if c.split(".")[-1] == "add_packer" and n.args:
+                    keys.add(const_value(n.args[0]))
+                if depth:
+                    for t in ctx.repo.resolve_call(fi, n):
+                        if t.module is init.module:
+                            harvest(t, depth - 1)
+            elif isinstance(n, ast.Assign):
+                for t in n.targets:
+                    if isinstance(t, ast.Subscript) and "_packers" in (chain(t.value) or ""):
+                        keys.add(const_value(t.slice))
+            elif isinstance(n, ast.Name) and isinstance(n.ctx, ast.Load):
+                r = ctx.repo.resolve_name(fi.module, n.id)
+                if isinstance(r, tuple) and r[0] == "const" and isinstance(r[2], ast.Dict):
+                    keys.update(const_value(k) for k in r[2].keys if k is not None)
+    harvest(init, 2)
+    keys = {k for k in keys if isinstance(k, str)}
+    if len(keys) < 5:
+        raise AnalysisError("anchor-lost: Serializer._packers table")
+    return keys
 
 
 _SCALARS = {"bool": "?", "int": "q", "float": "d", "bytes": "varlenH", "str": "varlenHutf8"}
@@ -2516,6 +2847,10 @@ def _annotations_of(sc: Scenario):
             out.append((f"{origin}[{k}]", Rec("generic", __origin__=Builtin(origin), __args__=(Builtin(k),)), "arrayH-" + _SCALARS[k]))
         out.append((f"{origin}[<payload class>]", Rec("generic", __origin__=Builtin(origin), __args__=(P,)), [P]))
     out.append(("<payload class>", P, P))
+    # an explicit Serializer nesting spec used as the annotation (`peers: [Item]`, the format_list spelling of a payload list): an
+    # unhashable list object that type_map passes through unchanged
+    spec = [P]
+    out.append(("[<payload class>] (a list object, the format_list spelling)", spec, spec))
     out.append(("dict", Builtin("dict"), PyExc("NotImplementedError")))
     out.append(("dict[str, int]", Rec("generic", __origin__=Builtin("dict"), __args__=(Builtin("str"), Builtin("int"))), PyExc("NotImplementedError")))
     return out
@@ -2537,7 +2872,7 @@ class DataclassWorld(Scenario):
         self.compiles: list = []
         vpc = repo.resolve_name(cp.module, "vp_compile")
         if not isinstance(vpc, FuncInfo):
-            raise AnalysisError("anchor-lost: vp_compile as seen from payload_dataclass")
+            vpc = repo.func(LP, "vp_compile")      # referenced through a module alias: the stub is keyed by the function itself
 
         def stub(it: Interp, args: list, kw: dict):
             c = args[0] if args else kw.get("vp_definition")
@@ -2587,6 +2922,110 @@ class DataclassWorld(Scenario):
         return None
 
 
+def _flat_targets(s) -> list:
+    out: list = []
+
+    def flat(t) -> None:
+        if isinstance(t, (ast.Tuple, ast.List)):
+            for e in t.elts:
+                flat(e.value if isinstance(e, ast.Starred) else e)
+        else:
+            out.append(t)
+    for t in (s.targets if isinstance(s, ast.Assign) else [s.target]):
+        flat(t)
+    return out
+
+
+def _literal_loop_keys(call: ast.Call, name: str):
+    """`for <name>, .. in (("a", ..), ("b", ..)):` / `.. in {"a": .., "b": ..}.items()` / `zip(("a", "b"), ..)` directly around
+    `call`: (the For statement, the constants <name> takes) when every iteration runs the call, else None."""
+    from ..model import enclosing_stmt, parent
+    st = enclosing_stmt(call)
+    loop = parent(st) if st is not None else None
+    if not isinstance(loop, ast.For) or st not in loop.body or loop.orelse:
+        return None
+    if any(isinstance(n, (ast.Break, ast.Continue, ast.Return, ast.Raise, ast.If, ast.Try, ast.While, ast.Match)) for b in loop.body for n in ast.walk(b)):
+        return None
+    tgt = loop.target
+    if isinstance(tgt, ast.Name):
+        idx = None if tgt.id == name else -1
+    elif isinstance(tgt, (ast.Tuple, ast.List)):
+        idx = next((i for i, e in enumerate(tgt.elts) if isinstance(e, ast.Name) and e.id == name), -1)
+    else:
+        idx = -1
+    if idx == -1:
+        return None
+    it = loop.iter
+    rows = None
+    if isinstance(it, (ast.Tuple, ast.List)):
+        rows = [r if idx is None else (r.elts[idx] if isinstance(r, (ast.Tuple, ast.List)) and len(r.elts) > idx else None) for r in it.elts]
+    elif isinstance(it, ast.Call) and isinstance(it.func, ast.Attribute) and it.func.attr == "items" and isinstance(it.func.value, ast.Dict) and idx == 0:
+        rows = list(it.func.value.keys)
+    elif isinstance(it, ast.Dict) and idx is None:
+        rows = list(it.keys)
+    elif isinstance(it, ast.Call) and chain(it.func) == "zip" and idx is not None and len(it.args) > idx and isinstance(it.args[idx], (ast.Tuple, ast.List)) \
+            and all(isinstance(a, (ast.Tuple, ast.List)) and len(a.elts) == len(it.args[idx].elts) for a in it.args):
+        rows = list(it.args[idx].elts)
+    if not rows or any(r is None for r in rows):
+        return None
+    vals = [const_value(r) for r in rows]
+    if not all(isinstance(v, str) for v in vals):
+        return None
+    return loop, vals
+
+
+def _effect_sites(ctx: Ctx, fi: FuncInfo, pname: str, effect: str, seen: tuple = ()) -> list:
+    """Syntax nodes of fi whose NORMAL completion implies the effect on the object parameter `pname` holds: effect 'vp_compile' = it is
+    passed to vp_compile, otherwise = its attribute <effect> is stored.  A call of a module-level helper that receives the object and
+    has the effect on every path to its normal exit is such a node (the helper is analysed with the parameter bound)."""
+    from ..match import local_defs
+    if pname not in fi.params() or local_defs(fi, pname):
+        return []
+    sites: list = []
+    if effect == "vp_compile":
+        sites += [c for c in calls(fi) if (chain(c.func) or "").split(".")[-1] == "vp_compile" and c.args and chain(c.args[0]) == pname]
+    else:
+        sites += [s for s in walk_no_nested(fi.node) if isinstance(s, (ast.Assign, ast.AnnAssign)) and getattr(s, "value", None) is not None
+                  and any(chain(t) == f"{pname}.{effect}" for t in _flat_targets(s))]
+        for c in calls(fi, "setattr"):
+            if len(c.args) == 3 and chain(c.args[0]) == pname:
+                if const_value(c.args[1]) == effect:
+                    sites.append(c)
+                elif isinstance(c.args[1], ast.Name):
+                    lk = _literal_loop_keys(c, c.args[1].id)
+                    if lk is not None and effect in lk[1]:
+                        sites.append(lk[0])
+    for c in calls(fi):
+        if any(c is x for x in sites) or any(isinstance(a, ast.Starred) for a in c.args) or any(k.arg is None for k in c.keywords):
+            continue
+        pos = [i for i, a in enumerate(c.args) if chain(a) == pname]
+        kws = [k.arg for k in c.keywords if chain(k.value) == pname]
+        if not pos and not kws:
+            continue
+        targets = ctx.repo.resolve_call(fi, c)
+        if not targets or len(seen) > 3:
+            continue
+
+        def has(t: FuncInfo) -> bool:
+            if t.cls is not None or t.node is fi.node or any(t.node is x for x in seen) or t.is_async or t.decorators:
+                return False
+            a = t.node.args
+            plain = [x.arg for x in a.posonlyargs + a.args]
+            names = [plain[i] for i in pos if i < len(plain)] + [k for k in kws if k in plain or k in [x.arg for x in a.kwonlyargs]]
+            return any(_on_every_path(ctx, t, _effect_sites(ctx, t, n, effect, (*seen, fi.node))) for n in names)
+        if all(has(t) for t in targets):
+            sites.append(c)
+    return sites
+
+
+def _on_every_path(ctx: Ctx, fi: FuncInfo, sites: list) -> bool:
+    """Every path from the entry of fi to its normal exit completes one of the sites."""
+    if not sites:
+        return False
+    cfg = ctx.cfg(fi)
+    return cfg.exit not in cfg.reach(cut_nodes=[n for x in sites for n in cfg.nodes_for(x)], follow_exc=False)
+
+
 def rule_type_map(ctx: Ctx) -> None:  # noqa: C901, PLR0912, PLR0915
     repo = ctx.repo
     fi = repo.func(PD, "type_map")
@@ -2617,7 +3056,8 @@ def rule_type_map(ctx: Ctx) -> None:  # noqa: C901, PLR0912, PLR0915
     ctx.check(bad is None, "type-map", fi, fi.node,
               "scalar annotations map to ?, q, d, varlenH, varlenHutf8; TypeVars to their name; list/tuple/set of scalars to arrayH-<scalar format>, of payloads to "
               "[payload]; payload classes to themselves; anything else is rejected",
-              f"type map changed: type_map({bad[0]}) gives {bad[1]!r}, expected {bad[2]!r}" if bad else "")
+              f"type map changed: type_map({bad[0]}) gives {bad[1]!r}, expected {bad[2]!r}: a dataclass payload with a field annotated this way no longer "
+              "gets the format (or the rejection) its plain format_list definition has" if bad else "")
     # ---- convert_to_payload: every class that reaches it is converted from ITS OWN dataclass fields
     def scenario():  # noqa: PLR0911
         it = dw.it
@@ -2660,17 +3100,13 @@ def rule_type_map(ctx: Ctx) -> None:  # noqa: C901, PLR0912, PLR0915
     scope_guard(dw, cp.where)
     # every class that reaches convert_to_payload is converted from ITS OWN fields: no early exit / guard that an inherited attribute could satisfy
     p = cp.params()[0]
-
-    def stores(attr: str):
-        out = [s for s in walk_no_nested(cp.node) if isinstance(s, (ast.Assign, ast.AnnAssign))
-               and any(chain(t) == f"{p}.{attr}" for t in (s.targets if isinstance(s, ast.Assign) else [s.target]))]
-        out += [c for c in calls(cp, "setattr") if len(c.args) == 3 and chain(c.args[0]) == p and const_value(c.args[1]) == attr]
-        return out
-    nm, fl = stores("names"), stores("format_list")
-    comp = [c for c in calls(cp) if chain(c.func) is not None and chain(c.func).split(".")[-1] == "vp_compile" and c.args and chain(c.args[0]) == p]
-    cfgc = ctx.cfg(cp)
-    ok = bool(nm) and bool(fl) and bool(comp) and all(
-        cfgc.exit not in cfgc.reach(cut_nodes=[n for x in grp for n in cfgc.nodes_for(x)], follow_exc=False) for grp in (nm, fl, comp))
+    nm, fl, comp = (_effect_sites(ctx, cp, p, e) for e in ("names", "format_list", "vp_compile"))
+    if msg is None and not (nm and fl and comp):
+        # the evaluated scenarios show that names / format_list are stored and the class is compiled, but not by a statement this rule
+        # can attribute to the class parameter: 'on every path' cannot be decided on the syntax
+        raise AnalysisError(f"undecided: {cp.where}: the statements that store names / format_list on `{p}` and pass it to vp_compile are not "
+                            "recognisable (found: " + ", ".join(f"{k}={len(v)}" for k, v in (("names", nm), ("format_list", fl), ("vp_compile", comp))) + ")")
+    ok = bool(nm) and bool(fl) and bool(comp) and all(_on_every_path(ctx, cp, grp) for grp in (nm, fl, comp))
     ctx.check(ok, "type-map", cp, cp.node, "convert_to_payload always derives names/format_list and compiles (no skip path)",
               "convert_to_payload can return without deriving names/format_list and compiling the class (e.g. a 'convert once' guard satisfied by an attribute "
               "inherited from a parent dataclass payload): the subclass keeps the parent's wire format and drops its own fields")
@@ -2705,6 +3141,8 @@ def run(ctx: Ctx) -> None:
     ctx.assume("compiled from_unpack_list skips fix_unpack_ for None values while the interpreter does not: wire values are never None")
     ctx.assume("field names of a definition are distinct non-empty identifiers, string formats other than 'bits' are registered format names that the "
                "code does not single out; symbolic strings built differently are different strings")
+    ctx.assume("code that asks about a constructor default's VALUE (truth, None-ness) is evaluated for every combination of answers while that takes at most "
+               f"{_MAX_CASES} evaluations per definition, otherwise for all-yes / all-no / each single deviation")
     ctx.assume("abstract definitions are finite: at most 5 formats / 19 names, hooks / defaults in 6 presence patterns; integer constants above 8 in the "
                "evaluated code make the rule undecided instead of silently out of scope")
 
@@ -2715,6 +3153,14 @@ WITNESSES = [
     {"name": "defaults for every name", "file": LP, "rule": "template-init",
      "old": "(f\"{name}={defaults.get(name)!r}\" if name in defaults else name) for name in names)",
      "new": "(f\"{name}={defaults.get(name)!r}\" if defaults else name) for name in names)"},
+    {"name": "default dropped when its value is falsy", "file": LP, "rule": "template-init",
+     "old": "(f\"{name}={defaults.get(name)!r}\" if name in defaults else name) for name in names)",
+     "new": "(f\"{name}={defaults.get(name)!r}\" if defaults.get(name) else name) for name in names)"},
+    {"name": "default dropped when its value is None", "file": LP, "rule": "template-init",
+     "old": "(f\"{name}={defaults.get(name)!r}\" if name in defaults else name) for name in names)",
+     "new": "(f\"{name}={defaults.get(name)!r}\" if defaults.get(name) is not None else name) for name in names)"},
+    {"name": "type_map hashes the annotation (explicit [Payload] format spec is unhashable)", "file": PD, "rule": "type-map",
+     "old": "    if t is bool:\n        return \"?\"", "new": "    if t in {bool: \"?\"}:\n        return \"?\""},
     {"name": "init args sorted", "file": LP, "rule": "template-init",
      "old": "if name in defaults else name) for name in names)", "new": "if name in defaults else name) for name in sorted(names))"},
     {"name": "bits consumes one name", "file": LP, "rule": "template-to-pack-list",
